@@ -90,7 +90,7 @@ fn op_strategy() -> BoxedStrategy<Op> {
         4 => (any::<u16>(), any::<u16>()).prop_map(|(a, b)| Op::ZeroArgAction(a, b)),
         1 => (any::<u16>(), 1u8..70).prop_map(|(a, b)| Op::WrapDeep(a, b)),
         1 => any::<u16>().prop_map(Op::SelfVar),
-        1 => (any::<u16>(), 0u8..6).prop_map(|(a, b)| Op::SelfTemplate(a, b)),
+        1 => (any::<u16>(), 0u8..9).prop_map(|(a, b)| Op::SelfTemplate(a, b)),
         3 => (any::<u16>(), any::<u16>()).prop_map(|(a, b)| Op::ReplaceAtom(a, b)),
         2 => (any::<u16>(), 0u8..10).prop_map(|(a, b)| Op::ByteInsert(a, b)),
         1 => any::<u16>().prop_map(Op::Truncate),
@@ -297,6 +297,24 @@ fn apply_ops(entry_idx: usize, ops: &[Op]) -> String {
                         2 => Node::List(vec![Node::atom("template-expand"), Node::atom(name), Node::atom("a")]),
                         _ => Node::List(vec![Node::atom("if-equal"), Node::atom("a"), Node::atom("a"), Node::List(vec![Node::atom("template-expand"), Node::atom(name)])]),
                     };
+                    if *w >= 6 {
+                        // a cycle of two or three templates that expand to each other, directly or
+                        // through the expander's name passed as an argument
+                        let kw = if *s % 2 == 0 { "template-expand" } else { "t!" };
+                        let names: Vec<&str> = if *w == 8 { vec!["ping", "pong", "pang"] } else { vec!["ping", "pong"] };
+                        for (i, n) in names.iter().enumerate() {
+                            let next = names[(i + 1) % names.len()];
+                            let body = if *w == 6 {
+                                Node::List(vec![Node::atom(kw), Node::atom(next), Node::atom("$x")])
+                            } else {
+                                Node::List(vec![Node::atom("$x"), Node::atom(next), Node::atom("$x")])
+                            };
+                            fs.push(Node::List(vec![Node::atom("deftemplate"), Node::atom(n), Node::List(vec![Node::atom("x")]), body]));
+                        }
+                        fs.push(Node::List(vec![Node::atom(kw), Node::atom("ping"), Node::atom(kw)]));
+                        text = print_top(fs);
+                        continue;
+                    }
                     if *w >= 4 {
                         // a template that, given the expander's own name as argument,
                         // expands to a call of itself
